@@ -1023,7 +1023,7 @@ pub fn c03(ctx: &Ctx) -> Report {
     let mut rng = Rng::new(ctx.seed ^ 0xC03);
     let n = budget(ctx, 40, 1200);
     for k in 0..n {
-        let o = ScOpts { fat32: Some(k % 4 == 0), keep_free: if k % 2 == 0 { Some(vec![0, 1, 2, 5]) } else { None }, small_root: k % 3 == 1, big_tree: k % 3 != 1, full_dir: k % 3 == 2, dirty: k % 2 == 1 || k % 6 == 2, stale_info: k % 8 == 4, bpc_choices: vec![1, 1, 2, 4], ..Default::default() };
+        let o = ScOpts { fat32: Some(k % 4 == 0), keep_free: if k % 2 == 0 { Some(vec![0, 1, 2, 5]) } else { None }, small_root: k % 3 == 1, big_tree: k % 3 != 1, full_dir: k % 3 == 2, dirty: k % 2 == 1 || k % 6 == 2, stale_info: k % 8 == 4, hint_in_use: k % 16 == 8, bpc_choices: vec![1, 1, 2, 4], ..Default::default() };
         let sc = make_scenario(&mut rng, &o);
         let mut cfg = RunCfg::base(budget(ctx, 40, 60), if k % 2 == 0 { Profile::space() } else { Profile::namespace() });
         cfg.fsck_every_op = true;
@@ -1240,7 +1240,7 @@ pub fn c09(ctx: &Ctx) -> Report {
     let mut rng = Rng::new(ctx.seed ^ 0xC09);
     let n = budget(ctx, 30, 1000);
     for k in 0..n {
-        let o = ScOpts { fat32: Some(k % 3 == 0), dirty: k % 2 == 0, keep_free: if k % 4 == 0 { Some(vec![2, 5, 30]) } else { None }, small_root: k % 5 == 1, bpc_choices: vec![1, 2, 4], full_dir: k % 2 == 1, stale_info: k % 6 == 3, ..Default::default() };
+        let o = ScOpts { fat32: Some(k % 3 == 0), dirty: k % 2 == 0, keep_free: if k % 4 == 0 { Some(vec![2, 5, 30]) } else { None }, small_root: k % 5 == 1, bpc_choices: vec![1, 2, 4], full_dir: k % 2 == 1, stale_info: k % 6 == 3, hint_in_use: k % 12 == 9 || k % 12 == 0, ..Default::default() };
         let sc = make_scenario(&mut rng, &o);
         let mut cfg = RunCfg::base(budget(ctx, 40, 60), Profile::namespace());
         cfg.profile.w_flush = 10;
@@ -1272,7 +1272,7 @@ pub fn c16(ctx: &Ctx) -> Report {
     let mut rng = Rng::new(ctx.seed ^ 0xC16);
     let n = budget(ctx, 40, 1200);
     for k in 0..n {
-        let o = ScOpts { fat32: Some(k % 2 == 0), stale_info: k % 4 == 2, keep_free: if k % 3 == 0 { Some(vec![1, 3, 10]) } else { None }, ..Default::default() };
+        let o = ScOpts { fat32: Some(k % 2 == 0), stale_info: k % 4 == 2, hint_in_use: k % 8 == 4, keep_free: if k % 3 == 0 { Some(vec![1, 3, 10]) } else { None }, ..Default::default() };
         let sc = make_scenario(&mut rng, &o);
         let mut cfg = RunCfg::base(budget(ctx, 40, 60), Profile::space());
         cfg.mirror_every_op = true;
